@@ -66,7 +66,7 @@ HANDLERS = {
 HANDLERS['C03'] = [HANDLERS['C06'][0], HANDLERS['C02'][2]]
 HANDLERS['C02'] = HANDLERS['C02'] + [HANDLERS['C12'][1]]   # commit_prove_state: the kept matched-blocks record (F42)
 HANDLERS['C04'] = [HANDLERS['C01'][0], HANDLERS['C12'][1], HANDLERS['C02'][0]]   # SendBlocksProof: missing matched block (F54)
-HANDLERS['C06'] = HANDLERS['C06'] + [HANDLERS['C02'][2]]
+HANDLERS['C06'] = HANDLERS['C06'] + [HANDLERS['C02'][2], HANDLERS['C02'][0]]   # + SendBlocksProof (F67)
 CENSUS.setdefault('C06', []).append('~+Peers::add_block')
 HANDLERS['C12'] = HANDLERS['C12'] + [HANDLERS['C01'][0]]
 CENSUS['C12'].append(HANDLERS['C01'][0])
@@ -91,3 +91,22 @@ def run(ctx, pid):
     from engine import census
     for f in CENSUS.get(pid, []):
         census.check(ctx, pid + '.ref', f.lstrip('+~!').split('@')[0])
+
+
+def requires(ctx, rule, name, sink_pat, atom_pat, text, history=None, forbid=False):
+    """Explicit obligation on top of the reference: every effect / exit of `name` whose label matches `sink_pat` is control
+    dependent on a condition matching `atom_pat` (or, with forbid, on none).  Uses the options of the function's table entry."""
+    import re as _re
+    from engine import census
+    table = census.load_table()
+    ent = table.get(name, {})
+    if not ctx.prog.has(name):
+        ctx.ob(rule, name, text, False, problem='function not found')
+        return
+    act, _ = census.compute(ctx.prog, name, tuple(ent.get('opaque', ())), bool(ent.get('effects')), ent.get('sinks'), bool(ent.get('closures')), bool(ent.get('guarded')))
+    hits = [e for e in act if _re.search(sink_pat, e['label'])]
+    if not hits:
+        ctx.ob(rule, name, text, False, problem='no effect / exit matching %s' % sink_pat, failing_history=history)
+        return
+    ok = all(any(_re.search(atom_pat, a) for a in e['full']) != forbid for e in hits)
+    ctx.ob(rule, name, text, ok, effects=len(hits), failing_history=None if ok else history)
